@@ -367,11 +367,15 @@ impl<'a> PatGen<'a> {
                 }
             }
             // negated field the node does not have
-            if matches!(kind, Kind::Named(_)) && !self.fields.is_empty() && t.pct(12) {
-                let f = t.pick(&self.fields).clone();
-                let has = n.children.iter().any(|&c| self.xt.nodes[c].field.and_then(|x| self.lang.language.field_name_for_id(x)) == Some(f.as_str()));
-                if !has {
-                    neg_fields.push(f);
+            // (one to three of them: the engine shares the stored lists between patterns)
+            if matches!(kind, Kind::Named(_)) && !self.fields.is_empty() && t.pct(22) {
+                let k = 1 + t.weighted(&[50, 30, 20]);
+                for _ in 0..k {
+                    let f = t.pick(&self.fields).clone();
+                    let has = n.children.iter().any(|&c| self.xt.nodes[c].field.and_then(|x| self.lang.language.field_name_for_id(x)) == Some(f.as_str()));
+                    if !has && !neg_fields.contains(&f) {
+                        neg_fields.push(f);
+                    }
                 }
             }
         }
